@@ -1,18 +1,28 @@
 package main
 
 import (
+	"encoding/json"
 	"fmt"
+	"os"
+	"path/filepath"
+	"sort"
 	"strings"
 
 	sdkmath "cosmossdk.io/math"
+	wasmtypes "github.com/CosmWasm/wasmd/x/wasm/types"
 	sdk "github.com/cosmos/cosmos-sdk/types"
 	authtypes "github.com/cosmos/cosmos-sdk/x/auth/types"
+	banktypes "github.com/cosmos/cosmos-sdk/x/bank/types"
+	govtypes "github.com/cosmos/cosmos-sdk/x/gov/types"
 	"github.com/cosmos/gogoproto/proto"
 
 	"github.com/osmosis-labs/osmosis/osmomath"
 	"github.com/osmosis-labs/osmosis/v31/app"
 	clmodel "github.com/osmosis-labs/osmosis/v31/x/concentrated-liquidity/model"
 	cltypes "github.com/osmosis-labs/osmosis/v31/x/concentrated-liquidity/types"
+	cwmsg "github.com/osmosis-labs/osmosis/v31/x/cosmwasmpool/cosmwasm/msg"
+	cwmodel "github.com/osmosis-labs/osmosis/v31/x/cosmwasmpool/model"
+	cwtypes "github.com/osmosis-labs/osmosis/v31/x/cosmwasmpool/types"
 	"github.com/osmosis-labs/osmosis/v31/x/gamm/pool-models/balancer"
 	"github.com/osmosis-labs/osmosis/v31/x/gamm/pool-models/stableswap"
 	gammtypes "github.com/osmosis-labs/osmosis/v31/x/gamm/types"
@@ -23,15 +33,23 @@ import (
 )
 
 // ---------------------------------------------------------------------------------------------
-// The C05 scenario: five pools over a,b,c,d,uosmo created through the real messages.
+// The C05 scenario: pools of every type the router can dispatch to, created through the real
+// messages (the contract code of the CosmWasm pools is uploaded and whitelisted the way the
+// repository's own helper does; everything after that is a message).
 //
-//	pool 1 balancer   (a,b)     spread 0.003
-//	pool 2 stableswap (b,c)     spread 0.001
-//	pool 3 concentrated (c,d)   spread 0.002, tick spacing 100, full-range + narrow position
-//	pool 4 balancer   (d,a)     spread 0
-//	pool 5 concentrated (a,uosmo) spread 0.0005, tick spacing 100, full-range + narrow position
+//	pool 1 balancer     (a,b)          spread 0.003
+//	pool 2 stableswap   (b,c)          spread 0.001
+//	pool 3 concentrated (c,d)          spread 0.002, tick spacing 100, full-range + narrow position
+//	pool 4 balancer     (d,a)          spread 0, weights 2:1
+//	pool 5 concentrated (a,uosmo)      spread 0.0005, tick spacing 100, full-range + narrow position
+//	pool 6 cosmwasm     (b,c)          the transmuter contract (1:1, no spread), parallel to pool 2
+//	pool 7 balancer     (uosmo,e,f)    spread 0.0025, weights 1:2:3
+//	pool 8 stableswap   (e,f,g)        spread 0.0004, scaling factors 1:4:10
+//	pool 9 cosmwasm     (d,h,alloy)    the transmuter v3 ("alloyed") contract — only in the world "alloy"
 //
-// The pool graph is the 4-cycle a-b-c-d-a with uosmo hanging off a.
+// The pool graph is the 4-cycle a-b-c-d-a with a parallel edge b=c, uosmo hanging off a, the
+// triangle uosmo-e-f hanging off uosmo and the triangle e-f-g sharing the edge e-f with it; in the
+// world "alloy" the triangle d-h-alloy hangs off d (h and the alloyed asset occur in pool 9 only).
 // ---------------------------------------------------------------------------------------------
 
 // Fee settings (one world each). The reduced-fee whitelist always contains W, so the second
@@ -40,9 +58,11 @@ const (
 	FeeZero    = "zero"    // every taker fee 0 (module default)
 	FeeDefault = "default" // TakerFeeParams.DefaultTakerFee = 0.001
 	FeePair    = "pair"    // default 0, pair a->b = 0.01 through the keeper's setter (directional)
+	FeeShare   = "share"   // default 0.001 + taker-fee share agreements on tkb (25 % -> K1) and tkf (10 % -> K2), set by the gov-only message
+	FeeAlloy   = "alloy"   // default 0.001 + pool 9 (transmuter v3) registered as alloyed pool + share agreement on tkh (20 % -> K3), both by the gov-only messages
 )
 
-var feeSettings = []string{FeeZero, FeeDefault, FeePair}
+var feeSettings = []string{FeeZero, FeeDefault, FeePair, FeeShare, FeeAlloy}
 var senders = []string{"T", "W"}
 
 // Config is one point of the configuration space; it is part of every replay artefact.
@@ -55,9 +75,9 @@ func (c Config) String() string { return c.Fee + "/" + c.Sender }
 
 // Op is one symbol of the prior-activity alphabet.
 type Op struct {
-	K string `json:"k"`           // swap join exit clcreate clwithdraw
+	K string `json:"k"`           // swap join exit clcreate clwithdraw cwjoin cwexit
 	P uint64 `json:"p"`           // pool id
-	D int    `json:"d,omitempty"` // swap direction: 0 = first denom in, 1 = second denom in
+	D int    `json:"d,omitempty"` // swap direction. Two-denom pools: 0 = first denom in, 1 = second denom in; n-denom pools: denom[d] in, denom[d+1 mod n] out
 }
 
 func (o Op) String() string {
@@ -104,22 +124,57 @@ func (l *Ledger) Clone() *Ledger {
 	return n
 }
 
-// PoolInfo describes one edge of the pool graph.
+// PoolInfo describes one pool of the graph: every ordered pair of its denoms is an edge.
 type PoolInfo struct {
-	ID   uint64
-	Type string // balancer stableswap concentrated
-	X, Y string
+	ID       uint64
+	Type     string // balancer stableswap concentrated cosmwasm
+	Denoms   []string
+	Contract string // cosmwasm pools: the contract address
+}
+
+func (p PoolInfo) has(d string) bool {
+	for _, x := range p.Denoms {
+		if x == d {
+			return true
+		}
+	}
+	return false
+}
+
+// swapPair returns the (in, out) denoms of swap direction d.
+func (p PoolInfo) swapPair(d int) (string, string) {
+	n := len(p.Denoms)
+	if n == 2 {
+		if d == 1 {
+			return p.Denoms[1], p.Denoms[0]
+		}
+		return p.Denoms[0], p.Denoms[1]
+	}
+	return p.Denoms[d%n], p.Denoms[(d+1)%n]
+}
+
+// Agreement is a taker-fee share agreement as requested by the harness (the reference of the skim oracle).
+type Agreement struct {
+	Denom string
+	Pct   osmomath.Dec
+	Addr  sdk.AccAddress
+	Name  string
 }
 
 // World is one configured application instance (one taker-fee setting).
 type World struct {
-	Env   *core.Env
-	App   *app.OsmosisApp
-	Fee   string
-	Pools []PoolInfo
-	Init  *Ledger
+	Env    *core.Env
+	App    *app.OsmosisApp
+	Fee    string
+	Pools  []PoolInfo
+	Denoms []string // every denom of the pool graph, in order of first appearance
+	Init   *Ledger
 	// named accounts whose balances are listed when two branches differ
 	Named []namedAcc
+	// share agreements set through MsgSetTakerFeeShareAgreementForDenom, by denom
+	Agreements map[string]Agreement
+	// registered alloyed pools: alloyed denom -> the scaled agreements the registration must have produced
+	Alloyed map[string][]Agreement
 	// set by estimate(): the fee-including estimate queries describe what this sender executes
 	plainCorresponds bool
 }
@@ -129,9 +184,20 @@ type namedAcc struct {
 	Addr sdk.AccAddress
 }
 
-var denoms = []string{"tka", "tkb", "tkc", "tkd", "uosmo"}
+// denomAlias shortens the (deterministic, but long) token-factory denom of the alloyed asset in
+// signatures and reports.
+var denomAlias = map[string]string{}
+
+func alias(d string) string {
+	if a, ok := denomAlias[d]; ok {
+		return a
+	}
+	return d
+}
 
 func sdkInt(n int64) sdkmath.Int { return sdkmath.NewInt(n) }
+
+func dec(s string) osmomath.Dec { return osmomath.MustNewDecFromStr(s) }
 
 func mustUnmarshal(res *sdk.Result, m proto.Message) {
 	if len(res.MsgResponses) > 0 {
@@ -156,18 +222,86 @@ func must(r core.MsgResult, what string) *sdk.Result {
 var clNarrow = map[uint64][2]int64{3: {-1000, 1000}, 5: {-5100000, -4900000}}
 var clExtra = map[uint64][2]int64{3: {-20000, 30000}, 5: {-5500000, -4500000}}
 
-// NewWorld builds the application, sets the configuration and creates the five pools.
+func repoRoot() string {
+	if r := os.Getenv("VERIF_REPO"); r != "" {
+		return r
+	}
+	return "/repo"
+}
+
+// storeContract uploads a contract of the repository's bytecode directory the way the repository's
+// own helper does (code upload restricted to the cosmwasmpool module account, then whitelisted).
+func storeContract(a *app.OsmosisApp, ctx sdk.Context, name string) uint64 {
+	code, err := os.ReadFile(filepath.Join(repoRoot(), "x/cosmwasmpool/bytecode", name+".wasm"))
+	if err != nil {
+		panic(fmt.Sprintf("harness: contract bytecode: %v", err))
+	}
+	mod := a.AccountKeeper.GetModuleAddress(cwtypes.ModuleName)
+	params := a.WasmKeeper.GetParams(ctx)
+	if err := a.WasmKeeper.SetParams(ctx, wasmtypes.Params{
+		CodeUploadAccess:             wasmtypes.AccessConfig{Permission: wasmtypes.AccessTypeAnyOfAddresses, Addresses: []string{mod.String()}},
+		InstantiateDefaultPermission: params.InstantiateDefaultPermission,
+	}); err != nil {
+		panic(err)
+	}
+	cfg := wasmtypes.AccessConfig{Permission: wasmtypes.AccessTypeAnyOfAddresses, Addresses: []string{mod.String()}}
+	id, _, err := a.ContractKeeper.Create(ctx, mod, code, &cfg)
+	if err != nil {
+		panic(fmt.Sprintf("harness: storing contract %s: %v", name, err))
+	}
+	a.CosmwasmPoolKeeper.WhitelistCodeId(ctx, id)
+	return id
+}
+
+// createCWPool sends MsgCreateCosmWasmPool and returns (pool id, contract address).
+func createCWPool(a *app.OsmosisApp, ctx sdk.Context, codeID uint64, creator sdk.AccAddress, instantiate interface{}) (uint64, string) {
+	bz, err := json.Marshal(instantiate)
+	if err != nil {
+		panic(err)
+	}
+	m := cwmodel.NewMsgCreateCosmWasmPool(codeID, creator, bz)
+	var r cwmodel.MsgCreateCosmWasmPoolResponse
+	mustUnmarshal(must(core.Deliver(a, ctx, &m), "create cosmwasm pool"), &r)
+	p, err := a.CosmwasmPoolKeeper.GetPoolById(ctx, r.PoolID)
+	if err != nil {
+		panic(err)
+	}
+	return r.PoolID, p.GetContractAddress()
+}
+
+func cwExecute(a *app.OsmosisApp, ctx sdk.Context, sender sdk.AccAddress, contract string, msg string, funds sdk.Coins) core.MsgResult {
+	return core.Deliver(a, ctx, &wasmtypes.MsgExecuteContract{Sender: sender.String(), Contract: contract, Msg: wasmtypes.RawContractMessage(msg), Funds: funds})
+}
+
+type v3AssetConfig struct {
+	Denom               string `json:"denom"`
+	NormalizationFactor string `json:"normalization_factor"`
+}
+
+type v3Instantiate struct {
+	PoolAssetConfigs                []v3AssetConfig `json:"pool_asset_configs"`
+	AlloyedAssetSubdenom            string          `json:"alloyed_asset_subdenom"`
+	AlloyedAssetNormalizationFactor string          `json:"alloyed_asset_normalization_factor"`
+	Admin                           string          `json:"admin"`
+	Moderator                       string          `json:"moderator"`
+}
+
+// NewWorld builds the application, sets the configuration and creates the pools.
 func NewWorld(fee string) *World {
 	big := "1000000000000000"
-	fund := core.Coins("tka", big, "tkb", big, "tkc", big, "tkd", big, "uosmo", big)
+	fund := core.Coins("tka", big, "tkb", big, "tkc", big, "tkd", big, "uosmo", big, "tke", big, "tkf", big, "tkg", big, "tkh", big)
 	env := core.NewEnv(core.GenesisOpts{Balances: map[string]sdk.Coins{"A": fund, "B": fund, "S": fund, "T": fund, "W": fund}})
 	a, ctx := env.App, env.Ctx
-	w := &World{Env: env, App: a, Fee: fee}
+	w := &World{Env: env, App: a, Fee: fee, Agreements: map[string]Agreement{}, Alloyed: map[string][]Agreement{}}
 
 	// concentrated-liquidity parameters: permissionless creation, quote denoms d and uosmo
 	p := cltypes.DefaultParams()
 	p.IsPermissionlessPoolCreationEnabled = true
 	a.ConcentratedLiquidityKeeper.SetParams(ctx, p)
+	// both accumulator generations: pool 3 (id <= threshold) keeps the unscaled spread-reward / incentive
+	// accumulators of pools created before the v25 migration, pool 5 uses the scaled ones
+	a.ConcentratedLiquidityKeeper.SetIncentivePoolIDMigrationThreshold(ctx, 3)
+	a.ConcentratedLiquidityKeeper.SetSpreadFactorPoolIDMigrationThreshold(ctx, 3)
 	qd := append(pmtypes.DefaultParams().AuthorizedQuoteDenoms, "tkd")
 	a.PoolManagerKeeper.SetParam(ctx, pmtypes.KeyAuthorizedQuoteDenoms, qd)
 
@@ -175,27 +309,27 @@ func NewWorld(fee string) *World {
 	a.PoolManagerKeeper.SetParam(ctx, pmtypes.KeyReducedTakerFeeByWhitelist, []string{core.Acc("W").String()})
 	switch fee {
 	case FeeZero:
-	case FeeDefault:
-		a.PoolManagerKeeper.SetParam(ctx, pmtypes.KeyDefaultTakerFee, osmomath.MustNewDecFromStr("0.001"))
+	case FeeDefault, FeeShare, FeeAlloy:
+		a.PoolManagerKeeper.SetParam(ctx, pmtypes.KeyDefaultTakerFee, dec("0.001"))
 	case FeePair:
-		a.PoolManagerKeeper.SetDenomPairTakerFee(ctx, "tka", "tkb", osmomath.MustNewDecFromStr("0.01"))
+		a.PoolManagerKeeper.SetDenomPairTakerFee(ctx, "tka", "tkb", dec("0.01"))
 	default:
 		panic("unknown fee setting " + fee)
 	}
 
 	A := core.Acc("A")
 	// pool 1: balancer (a,b)
-	m1 := balancer.NewMsgCreateBalancerPool(A, balancer.PoolParams{SwapFee: osmomath.MustNewDecFromStr("0.003"), ExitFee: osmomath.ZeroDec()},
+	m1 := balancer.NewMsgCreateBalancerPool(A, balancer.PoolParams{SwapFee: dec("0.003"), ExitFee: osmomath.ZeroDec()},
 		[]balancer.PoolAsset{{Token: sdk.NewCoin("tka", sdkInt(2_000_000_000)), Weight: sdkInt(1)}, {Token: sdk.NewCoin("tkb", sdkInt(1_000_000_000)), Weight: sdkInt(1)}}, "")
 	var r1 balancer.MsgCreateBalancerPoolResponse
 	mustUnmarshal(must(core.Deliver(a, ctx, &m1), "create balancer(a,b)"), &r1)
 	// pool 2: stableswap (b,c)
-	m2 := stableswap.NewMsgCreateStableswapPool(A, stableswap.PoolParams{SwapFee: osmomath.MustNewDecFromStr("0.001"), ExitFee: osmomath.ZeroDec()},
+	m2 := stableswap.NewMsgCreateStableswapPool(A, stableswap.PoolParams{SwapFee: dec("0.001"), ExitFee: osmomath.ZeroDec()},
 		core.Coins("tkb", 1_000_000_000, "tkc", 1_100_000_000), []uint64{1, 1}, "")
 	var r2 stableswap.MsgCreateStableswapPoolResponse
 	mustUnmarshal(must(core.Deliver(a, ctx, &m2), "create stableswap(b,c)"), &r2)
 	// pool 3: concentrated (c,d)
-	m3 := clmodel.NewMsgCreateConcentratedPool(A, "tkc", "tkd", 100, osmomath.MustNewDecFromStr("0.002"))
+	m3 := clmodel.NewMsgCreateConcentratedPool(A, "tkc", "tkd", 100, dec("0.002"))
 	var r3 clmodel.MsgCreateConcentratedPoolResponse
 	mustUnmarshal(must(core.Deliver(a, ctx, &m3), "create concentrated(c,d)"), &r3)
 	// pool 4: balancer (d,a) spread 0
@@ -204,17 +338,81 @@ func NewWorld(fee string) *World {
 	var r4 balancer.MsgCreateBalancerPoolResponse
 	mustUnmarshal(must(core.Deliver(a, ctx, &m4), "create balancer(d,a)"), &r4)
 	// pool 5: concentrated (a,uosmo)
-	m5 := clmodel.NewMsgCreateConcentratedPool(A, "tka", "uosmo", 100, osmomath.MustNewDecFromStr("0.0005"))
+	m5 := clmodel.NewMsgCreateConcentratedPool(A, "tka", "uosmo", 100, dec("0.0005"))
 	var r5 clmodel.MsgCreateConcentratedPoolResponse
 	mustUnmarshal(must(core.Deliver(a, ctx, &m5), "create concentrated(a,uosmo)"), &r5)
+	// pool 6: cosmwasm transmuter (b,c), funded by A through the contract's join_pool
+	code1 := storeContract(a, ctx, "transmuter")
+	id6, c6 := createCWPool(a, ctx, code1, A, cwmsg.InstantiateMsg{PoolAssetDenoms: []string{"tkb", "tkc"}})
+	must(cwExecute(a, ctx, A, c6, `{"join_pool":{}}`, core.Coins("tkb", 1_000_000_000, "tkc", 800_000_000)), "join transmuter(b,c)")
+	// pool 7: balancer (uosmo,e,f), three assets
+	m7 := balancer.NewMsgCreateBalancerPool(A, balancer.PoolParams{SwapFee: dec("0.0025"), ExitFee: osmomath.ZeroDec()},
+		[]balancer.PoolAsset{{Token: sdk.NewCoin("uosmo", sdkInt(600_000_000)), Weight: sdkInt(1)}, {Token: sdk.NewCoin("tke", sdkInt(1_200_000_000)), Weight: sdkInt(2)},
+			{Token: sdk.NewCoin("tkf", sdkInt(2_000_000_000)), Weight: sdkInt(3)}}, "")
+	var r7 balancer.MsgCreateBalancerPoolResponse
+	mustUnmarshal(must(core.Deliver(a, ctx, &m7), "create balancer(uosmo,e,f)"), &r7)
+	// pool 8: stableswap (e,f,g), three assets, non-unit scaling factors (in the order of the sorted denoms)
+	m8 := stableswap.NewMsgCreateStableswapPool(A, stableswap.PoolParams{SwapFee: dec("0.0004"), ExitFee: osmomath.ZeroDec()},
+		core.Coins("tke", 1_000_000_000, "tkf", 4_200_000_000, "tkg", 9_500_000_000), []uint64{1, 4, 10}, "")
+	var r8 stableswap.MsgCreateStableswapPoolResponse
+	mustUnmarshal(must(core.Deliver(a, ctx, &m8), "create stableswap(e,f,g)"), &r8)
 
 	w.Pools = []PoolInfo{
-		{r1.PoolID, "balancer", "tka", "tkb"}, {r2.PoolID, "stableswap", "tkb", "tkc"}, {r3.PoolID, "concentrated", "tkc", "tkd"},
-		{r4.PoolID, "balancer", "tkd", "tka"}, {r5.PoolID, "concentrated", "tka", "uosmo"},
+		{ID: r1.PoolID, Type: "balancer", Denoms: []string{"tka", "tkb"}}, {ID: r2.PoolID, Type: "stableswap", Denoms: []string{"tkb", "tkc"}},
+		{ID: r3.PoolID, Type: "concentrated", Denoms: []string{"tkc", "tkd"}}, {ID: r4.PoolID, Type: "balancer", Denoms: []string{"tkd", "tka"}},
+		{ID: r5.PoolID, Type: "concentrated", Denoms: []string{"tka", "uosmo"}}, {ID: id6, Type: "cosmwasm", Denoms: []string{"tkb", "tkc"}, Contract: c6},
+		{ID: r7.PoolID, Type: "balancer", Denoms: []string{"uosmo", "tke", "tkf"}}, {ID: r8.PoolID, Type: "stableswap", Denoms: []string{"tke", "tkf", "tkg"}},
+	}
+
+	gov := authtypes.NewModuleAddress(govtypes.ModuleName).String()
+	setAgreement := func(denom, pct, name string) {
+		ag := Agreement{Denom: denom, Pct: dec(pct), Addr: core.Acc(name), Name: name}
+		must(core.Deliver(a, ctx, &pmtypes.MsgSetTakerFeeShareAgreementForDenom{Sender: gov, Denom: denom, SkimPercent: ag.Pct, SkimAddress: ag.Addr.String()}),
+			"share agreement for "+denom)
+		w.Agreements[denom] = ag
+	}
+	switch fee {
+	case FeeShare:
+		setAgreement("tkb", "0.25", "K1")
+		setAgreement("tkf", "0.1", "K2")
+	case FeeAlloy:
+		// pool 9: transmuter v3 over (d,h) with the alloyed asset alldh; A joins with equal amounts, hands some of the
+		// alloyed asset to the other accounts, then the share agreement on h and the registration of the pool
+		code3 := storeContract(a, ctx, "transmuter_v3")
+		id9, c9 := createCWPool(a, ctx, code3, A, v3Instantiate{
+			PoolAssetConfigs:     []v3AssetConfig{{Denom: "tkd", NormalizationFactor: "1"}, {Denom: "tkh", NormalizationFactor: "1"}},
+			AlloyedAssetSubdenom: "alldh", AlloyedAssetNormalizationFactor: "1", Admin: A.String(), Moderator: A.String()})
+		must(cwExecute(a, ctx, A, c9, `{"join_pool":{}}`, core.Coins("tkd", 1_500_000_000, "tkh", 1_500_000_000)), "join transmuter v3(d,h)")
+		alloy := "factory/" + c9 + "/alloyed/alldh"
+		denomAlias[alloy] = "alldh"
+		if got := a.BankKeeper.GetBalance(ctx, A, alloy).Amount; !got.Equal(sdkInt(3_000_000_000)) {
+			panic(fmt.Sprintf("harness: joining the alloyed pool minted %s %s", got, alloy))
+		}
+		for _, n := range []string{"T", "W", "S", "B"} {
+			must(core.Deliver(a, ctx, &banktypes.MsgSend{FromAddress: A.String(), ToAddress: core.Acc(n).String(), Amount: core.Coins(alloy, 500_000_000)}), "hand out the alloyed asset")
+		}
+		setAgreement("tkh", "0.2", "K3")
+		must(core.Deliver(a, ctx, &pmtypes.MsgSetRegisteredAlloyedPool{Sender: gov, PoolId: id9}), "register alloyed pool")
+		// the registration snapshots the composition: tkh is half of the pool, so the scaled share is 0.1
+		st, found := a.PoolManagerKeeper.GetRegisteredAlloyedPoolFromDenomUNSAFE(alloy)
+		if !found || len(st.TakerFeeShareAgreements) != 1 || st.TakerFeeShareAgreements[0].Denom != "tkh" || !st.TakerFeeShareAgreements[0].SkimPercent.Equal(dec("0.1")) {
+			panic(fmt.Sprintf("harness: unexpected registered alloyed pool state %+v (found=%v)", st, found))
+		}
+		w.Alloyed[alloy] = []Agreement{{Denom: "tkh", Pct: dec("0.1"), Addr: core.Acc("K3"), Name: "K3"}}
+		w.Pools = append(w.Pools, PoolInfo{ID: id9, Type: "cosmwasm", Denoms: []string{"tkd", "tkh", alloy}, Contract: c9})
 	}
 	for i, pi := range w.Pools {
 		if pi.ID != uint64(i+1) {
-			panic(fmt.Sprintf("harness: pool ids not 1..5: %+v", w.Pools))
+			panic(fmt.Sprintf("harness: pool ids not 1..%d: %+v", len(w.Pools), w.Pools))
+		}
+		for _, d := range pi.Denoms {
+			seen := false
+			for _, x := range w.Denoms {
+				seen = seen || x == d
+			}
+			if !seen {
+				w.Denoms = append(w.Denoms, d)
+			}
 		}
 	}
 
@@ -256,10 +454,27 @@ func NewWorld(fee string) *World {
 	for _, m := range []string{txfeestypes.TakerFeeCollectorName, txfeestypes.TakerFeeCommunityPoolName, txfeestypes.TakerFeeStakersName, txfeestypes.TakerFeeBurnName, "distribution"} {
 		w.Named = append(w.Named, namedAcc{m, authtypes.NewModuleAddress(m)})
 	}
+	for _, n := range []string{"K1", "K2", "K3"} {
+		w.Named = append(w.Named, namedAcc{"skim-" + n, core.Acc(n)})
+	}
 	return w
 }
 
 func (w *World) pool(id uint64) PoolInfo { return w.Pools[id-1] }
+
+// agreementList returns the harness's agreements in the order of their denoms.
+func (w *World) agreementList() []Agreement {
+	var ks []string
+	for k := range w.Agreements {
+		ks = append(ks, k)
+	}
+	sort.Strings(ks)
+	out := make([]Agreement, len(ks))
+	for i, k := range ks {
+		out[i] = w.Agreements[k]
+	}
+	return out
+}
 
 // errClass maps an error to a short stable class (numbers stripped).
 func errClass(err error) string {
@@ -292,11 +507,7 @@ func (w *World) Apply(ctx sdk.Context, l *Ledger, op Op, _ func(a, s, d string))
 	l.Ops = append(l.Ops, op)
 	switch op.K {
 	case "swap":
-		pi := w.pool(op.P)
-		in, out := pi.X, pi.Y
-		if op.D == 1 {
-			in, out = pi.Y, pi.X
-		}
+		in, out := w.pool(op.P).swapPair(op.D)
 		r := core.Deliver(a, ctx, &pmtypes.MsgSwapExactAmountIn{Sender: core.Acc("S").String(), Routes: []pmtypes.SwapAmountInRoute{{PoolId: op.P, TokenOutDenom: out}},
 			TokenIn: sdk.NewCoin(in, sdkInt(priorSwapAmount)), TokenOutMinAmount: sdkmath.OneInt()})
 		if !r.OK() {
@@ -312,6 +523,18 @@ func (w *World) Apply(ctx sdk.Context, l *Ledger, op Op, _ func(a, s, d string))
 		if !r.OK() {
 			return ctx, errClass(r.Err)
 		}
+	case "cwjoin":
+		pi := w.pool(op.P)
+		r := cwExecute(a, ctx, core.Acc("B"), pi.Contract, `{"join_pool":{}}`, core.Coins(pi.Denoms[0], 150_000_000))
+		if !r.OK() {
+			return ctx, errClass(r.Err)
+		}
+	case "cwexit":
+		pi := w.pool(op.P)
+		r := cwExecute(a, ctx, core.Acc("A"), pi.Contract, fmt.Sprintf(`{"exit_pool":{"tokens_out":[{"denom":%q,"amount":"300000000"}]}}`, pi.Denoms[1]), nil)
+		if !r.OK() {
+			return ctx, errClass(r.Err)
+		}
 	case "clcreate":
 		pi := w.pool(op.P)
 		rg := clExtra[op.P]
@@ -320,7 +543,7 @@ func (w *World) Apply(ctx sdk.Context, l *Ledger, op Op, _ func(a, s, d string))
 			amt1 = 25_000_000
 		}
 		msg := &cltypes.MsgCreatePosition{PoolId: op.P, Sender: core.Acc("B").String(), LowerTick: rg[0], UpperTick: rg[1],
-			TokensProvided: core.Coins(pi.X, amt0, pi.Y, amt1), TokenMinAmount0: sdkmath.ZeroInt(), TokenMinAmount1: sdkmath.ZeroInt()}
+			TokensProvided: core.Coins(pi.Denoms[0], amt0, pi.Denoms[1], amt1), TokenMinAmount0: sdkmath.ZeroInt(), TokenMinAmount1: sdkmath.ZeroInt()}
 		r := core.Deliver(a, ctx, msg)
 		if !r.OK() {
 			return ctx, errClass(r.Err)
@@ -342,13 +565,24 @@ func (w *World) Apply(ctx sdk.Context, l *Ledger, op Op, _ func(a, s, d string))
 	return ctx, "ok"
 }
 
-// Enabled lists the prior-activity alphabet (simplest first).
-func (w *World) Enabled(ctx sdk.Context, l *Ledger, depth int) []Op {
+// alphabet lists the prior-activity ops of a world (simplest first): a swap on every pool in each
+// direction (multi-asset pools: the three directions of one orientation of the triangle), join / exit of
+// every gamm pool (the three-asset ones: one of the two), the transmuter's join and exit, CL
+// create-position / withdraw-the-narrow-position.
+func (w *World) alphabet(l *Ledger) []Op {
 	var ops []Op
 	for _, pi := range w.Pools {
-		ops = append(ops, Op{K: "swap", P: pi.ID, D: 0}, Op{K: "swap", P: pi.ID, D: 1})
+		n := len(pi.Denoms)
+		if n == 2 {
+			ops = append(ops, Op{K: "swap", P: pi.ID, D: 0}, Op{K: "swap", P: pi.ID, D: 1})
+		} else {
+			for d := 0; d < n; d++ {
+				ops = append(ops, Op{K: "swap", P: pi.ID, D: d})
+			}
+		}
 	}
-	ops = append(ops, Op{K: "join", P: 1}, Op{K: "exit", P: 1}, Op{K: "join", P: 2}, Op{K: "exit", P: 2})
+	ops = append(ops, Op{K: "join", P: 1}, Op{K: "exit", P: 1}, Op{K: "join", P: 2}, Op{K: "exit", P: 2}, Op{K: "join", P: 7}, Op{K: "exit", P: 8},
+		Op{K: "cwjoin", P: 6}, Op{K: "cwexit", P: 6})
 	for _, p := range []uint64{3, 5} {
 		if !l.Extra[p] {
 			ops = append(ops, Op{K: "clcreate", P: p})
@@ -359,6 +593,9 @@ func (w *World) Enabled(ctx sdk.Context, l *Ledger, depth int) []Op {
 	}
 	return ops
 }
+
+// Enabled lists the prior-activity alphabet.
+func (w *World) Enabled(ctx sdk.Context, l *Ledger, depth int) []Op { return w.alphabet(l) }
 
 // reserves returns the pool's total liquidity.
 func (w *World) reserves(ctx sdk.Context, id uint64) sdk.Coins {
